@@ -208,6 +208,13 @@ def specWidthV (es : List W2Entry) (dw2 : Option (Rat × Rat)) (cid : Nat) : Rat
   | some w => w.1
   | none => (dw2.getD (880, -1000)).2
 
+/-- Position vector of a cid in vertical writing: `(vx, vy)` of the latest covering `W2` entry of THIS font,
+else the default `(w0/2, DW2[0])` — reported as `(none, DW2[0])`, default 880. -/
+def specDispV (es : List W2Entry) (dw2 : Option (Rat × Rat)) (cid : Nat) : Option Rat × Rat :=
+  match (specWidth2Pairs es).reverse.lookup (cid : Int) with
+  | some w => (some w.2.1, w.2.2)
+  | none => (none, (dw2.getD (880, -1000)).1)
+
 def renderW2Entry : W2Entry → List WElem
   | .list c ws => [.num (c : Rat) true,
                    .list (ws.flatMap (fun w => [WVal.num w.1.1, WVal.num w.2.1.1, WVal.num w.2.2.1]))]
